@@ -454,7 +454,7 @@ enum G {
   Expr(String),
 }
 
-const PLAIN_CHARS: &[char] = &['a', 'b', 'Z', '0', '9', ' ', '_', '-', '/', '.', ':', ',', '{', '}', '[', ']', '\'', 'é', 'ż', 'ß', '€', '中', '\u{7f}', '\u{a0}', '\u{2028}', '\u{ffff}', '🙏', '\u{10ffff}'];
+const PLAIN_CHARS: &[char] = &['a', 'b', 'Z', '0', '9', ' ', '_', '-', '/', '.', ':', ',', '{', '}', '[', ']', '\'', 'é', 'ż', 'ß', '€', '中', '語', '안', 'Ａ', '\u{7f}', '\u{a0}', '\u{2028}', '\u{ffff}', '🙏', '\u{10ffff}'];
 const ESC_CHARS: &[char] = &['"', '\\', '\n', '\r', '\t', '\u{0}', '\u{1}', '\u{8}', '\u{c}', '\u{1f}', '\u{b}'];
 
 fn gen_string(rng: &mut Rng, escapes: bool) -> String {
@@ -984,7 +984,8 @@ enum Rq {
   Remove(Option<String>, Option<String>),
   Clear,
   Deploy,
-  Eval { model: String, invocable: String, body: String },
+  /// `sent`: the value an echo request writes into its body (known outright, whatever the service's reader does)
+  Eval { model: String, invocable: String, body: String, sent: Option<G> },
   /// rejected before a handler runs (actix-web): not part of the handler model
   Framework(u8),
 }
@@ -1040,7 +1041,7 @@ impl Service {
       }
       Rq::Clear => Wire { method: "POST", path: "/definitions/clear".into(), content_type: js, body: vec![] },
       Rq::Deploy => Wire { method: "POST", path: "/definitions/deploy".into(), content_type: js, body: vec![] },
-      Rq::Eval { model, invocable, body } => Wire { method: "POST", path: format!("/evaluate/{}/{}", model, invocable), content_type: Some("text/plain"), body: body.clone().into_bytes() },
+      Rq::Eval { model, invocable, body, .. } => Wire { method: "POST", path: format!("/evaluate/{}/{}", model, invocable), content_type: Some("text/plain"), body: body.clone().into_bytes() },
       Rq::Framework(k) => match k % 7 {
         0 => Wire { method: "POST", path: "/definitions/add".into(), content_type: js, body: b"{\"content\": ".to_vec() },
         1 => Wire { method: "POST", path: "/definitions/remove".into(), content_type: js, body: b"[1, 2".to_vec() },
@@ -1117,14 +1118,14 @@ fn run_http(cfg: &Cfg, rep: &mut Report, model: &mut Model, rng: &mut Rng) {
 
   let mut sequences: Vec<Vec<Rq>> = vec![];
   // corpus: the witnesses of the former findings F18 (replace of a stored model) and F17a/F17b (echo)
-  let echo = |g: &G| Rq::Eval { model: "n1".into(), invocable: "E".into(), body: format!("{{x: {}}}", to_feel(g)) };
+  let echo = |g: &G| Rq::Eval { model: "n1".into(), invocable: "E".into(), body: format!("{{x: {}}}", to_feel(g)), sent: Some(g.clone()) };
   sequences.push(vec![
     Rq::Add(Content::Model(models[0].clone())),
     Rq::Deploy,
-    Rq::Eval { model: "n1".into(), invocable: "D".into(), body: "{}".into() },
+    Rq::Eval { model: "n1".into(), invocable: "D".into(), body: "{}".into(), sent: None },
     Rq::Replace(Content::Model(models[0].clone())),
     Rq::Deploy,
-    Rq::Eval { model: "n1".into(), invocable: "D".into(), body: "{}".into() },
+    Rq::Eval { model: "n1".into(), invocable: "D".into(), body: "{}".into(), sent: None },
   ]);
   sequences.push(vec![
     Rq::Add(Content::Model(models[0].clone())),
@@ -1134,9 +1135,9 @@ fn run_http(cfg: &Cfg, rep: &mut Report, model: &mut Model, rng: &mut Rng) {
     echo(&G::Ctx(vec![("a\"b".into(), G::Num("1".into()))])),
     echo(&G::Expr("date(\"2021-01-01\")".into())),
     echo(&G::List(vec![G::Num("1".into()), G::Str("é🙏".into()), G::Null, G::Bool(true)])),
-    Rq::Eval { model: "n1".into(), invocable: "E".into(), body: "{x: ".into() },
-    Rq::Eval { model: "n1".into(), invocable: "Z".into(), body: "{}".into() },
-    Rq::Eval { model: "n9".into(), invocable: "D".into(), body: "{}".into() },
+    Rq::Eval { model: "n1".into(), invocable: "E".into(), body: "{x: ".into(), sent: None },
+    Rq::Eval { model: "n1".into(), invocable: "Z".into(), body: "{}".into(), sent: None },
+    Rq::Eval { model: "n9".into(), invocable: "D".into(), body: "{}".into(), sent: None },
   ]);
   for _ in 0..n_seq {
     let len = 1 + rng.below(12) as usize;
@@ -1194,13 +1195,13 @@ fn run_http(cfg: &Cfg, rep: &mut Report, model: &mut Model, rng: &mut Rng) {
           deployed = true;
           Rq::Deploy
         }
-        12 | 13 => Rq::Eval { model: target(rng, &stored, deployed), invocable: (*rng.pick(&["D", "D", "Z"])).to_string(), body: "{}".into() },
+        12 | 13 => Rq::Eval { model: target(rng, &stored, deployed), invocable: (*rng.pick(&["D", "D", "Z"])).to_string(), body: "{}".into(), sent: None },
         14..=17 => {
           let (depth, e, t) = (rng.below(3) as u32, rng.chance(1, 2), rng.chance(1, 4));
           let g = gen_value(rng, depth, e, t);
-          Rq::Eval { model: target(rng, &stored, deployed), invocable: "E".into(), body: format!("{{x: {}}}", to_feel(&g)) }
+          Rq::Eval { model: target(rng, &stored, deployed), invocable: "E".into(), body: format!("{{x: {}}}", to_feel(&g)), sent: Some(g.clone()) }
         }
-        18 => Rq::Eval { model: target(rng, &stored, deployed), invocable: "E".into(), body: (*rng.pick(&["{x: ", "x", "{x: 1", "\u{1}", "{\"x\": [1, 2}"])).to_string() },
+        18 => Rq::Eval { model: target(rng, &stored, deployed), invocable: "E".into(), body: (*rng.pick(&["{x: ", "x", "{x: 1", "\u{1}", "{\"x\": [1, 2}"])).to_string(), sent: None },
         _ => Rq::Framework(rng.below(7) as u8),
       };
       seq.push(r);
@@ -1222,11 +1223,27 @@ fn run_http(cfg: &Cfg, rep: &mut Report, model: &mut Model, rng: &mut Rng) {
         Rq::Remove(ns, n) => parts.push(format!("(remove {} {})", opt_atom(ns), opt_atom(n))),
         Rq::Clear => parts.push("clear".into()),
         Rq::Deploy => parts.push("deploy".into()),
-        Rq::Eval { model, invocable, body } => {
+        Rq::Eval { model, invocable, body, sent } => {
           let v = match guarded(|| svc.oracle(invocable, body)) {
             Ok(v) => v,
             Err(p) => Err(format!("panic: {}", p)),
           };
+          // an echo request: what the body denotes is the value that was written into it
+          if let (Some(g), Ok(got)) = (sent, &v) {
+            if let Some(want) = to_value(g) {
+              rep.hit("evaluate:echo-input-checked");
+              if to_jv(got).to_string() != to_jv(&want).to_string() {
+                rep.disagree(
+                  Kind::ImplVsSpec,
+                  "evaluate_input",
+                  "the body of an evaluate request does not denote the value written into it",
+                  &format!("POST /evaluate/{}/{} {}", model, invocable, body.chars().take(300).collect::<String>()),
+                  &to_jv(got).to_string(),
+                  &to_jv(&want).to_string(),
+                );
+              }
+            }
+          }
           match &v {
             Ok(v) => parts.push(format!("(eval {} {} ok {})", model, invocable, to_jv(v))),
             Err(_) => parts.push(format!("(eval {} {} bad (null))", model, invocable)),
@@ -1806,7 +1823,7 @@ fn run_parallel_clients(cfg: &Cfg, rep: &mut Report, rng: &mut Rng, svc: &Servic
         4 | 5 => Rq::Deploy,
         6 => Rq::Add(Content::BadUtf8),
         7 => Rq::Framework(rng.below(7) as u8),
-        8 => Rq::Eval { model: "n1".into(), invocable: "D".into(), body: "{}".into() },
+        8 => Rq::Eval { model: "n1".into(), invocable: "D".into(), body: "{}".into(), sent: None },
         _ => {
           let g = gen_value(rng, 2, false, false);
           if let Ok(Some(v)) = guarded(|| to_value(&g)) {
@@ -1817,7 +1834,7 @@ fn run_parallel_clients(cfg: &Cfg, rep: &mut Report, rng: &mut Rng, svc: &Servic
               issue = Some(failure_signature(&t, numsok));
             }
           }
-          Rq::Eval { model: (*rng.pick(&["n1", "n2", "n3"])).to_string(), invocable: "E".into(), body: format!("{{x: {}}}", to_feel(&g)) }
+          Rq::Eval { model: (*rng.pick(&["n1", "n2", "n3"])).to_string(), invocable: "E".into(), body: format!("{{x: {}}}", to_feel(&g)), sent: Some(g.clone()) }
         }
       };
       ws.push((endpoint(&r).to_string(), svc.wire(&r), issue));
